@@ -254,7 +254,7 @@ func agreeEmbed(r *engine.Run) {
 	type bound struct{ lo, hi string }
 	got := map[bound]bool{}
 	rorder := ""
-	engine.Instrs(rd, func(in ssa.Instruction) {
+	scanReader := func(in ssa.Instruction) {
 		switch x := in.(type) {
 		case *ssa.Slice:
 			if !isByteSlice(x.X.Type()) {
@@ -283,7 +283,11 @@ func agreeEmbed(r *engine.Run) {
 				}
 			}
 		}
-	})
+	}
+	// the decoding of one slot may live in a helper of the branch decoder
+	for _, g := range opGroup(r, rd) {
+		engine.Instrs(g, scanReader)
+	}
 	wantR := []bound{{"", "32"}, {"32", ""}, {"40", "72"}, {"72", ""}}
 	okR := true
 	var missing []string
@@ -378,6 +382,8 @@ func runC13(r *engine.Run) {
 	r.NotDec = append(r.NotDec, "resolvability of every checkpoint node after rollback for every history (value-level)")
 	agreeRollback(r)
 	agreeCheckpoint(r)
+	purgeEvery(r, "AGREE-rollback")
+	checkpointEvery(r, "AGREE-checkpoint")
 	agreeCreated(r)
 	domCreated(r, "DOM-created")
 	depCheckpoint(r, "DEP-checkpoint")
